@@ -3,10 +3,10 @@
 import json, os, subprocess, sys, time
 ROOT = os.path.dirname(os.path.dirname(os.path.abspath(__file__)))
 # which checks to run per seeded change (default: its own property); extra cross-property pairs
-EXTRA2 = {'C01-m4': ['C01', 'C07'], 'C06-m4': ['C06', 'C07'], 'C02-m3': ['C02', 'C20'], 'C02-m4': ['C02', 'C13'], 'C03-m3': ['C03', 'C08'],
-          'C04-m3': ['C04', 'C01'], 'C04-m4': ['C04', 'C11'], 'C08-m3': ['C08', 'C02'], 'C08-m4': ['C08', 'C13'], 'C10-m3': ['C10', 'C19'],
-          'C13-m3': ['C13', 'C07', 'C14'], 'C14-m3': ['C14', 'C15'], 'C15-m4': ['C15', 'C14'], 'C17-m4': ['C17', 'C06', 'C08'],
-          'C19-m3': ['C19', 'C10']}
+EXTRA2 = {'C01-m4': ['C07'], 'C06-m4': ['C07'], 'C02-m3': ['C20'], 'C02-m4': ['C02'], 'C03-m3': ['C03'],
+          'C04-m3': ['C04'], 'C04-m4': ['C11'], 'C08-m3': ['C02'], 'C08-m4': ['C13'], 'C10-m3': ['C10'],
+          'C13-m3': ['C07'], 'C14-m3': ['C14', 'C15'], 'C15-m4': ['C15', 'C14'], 'C17-m4': ['C08'],
+          'C19-m3': ['C19'], 'C01-m3': ['C04'], 'C05-m3': ['C15'], 'C05-m4': ['C20'], 'C06-m3': ['C01', 'C04'], 'C10-m3': ['C10', 'C19']}
 EXTRA = {'C03-m1': ['C10'], 'C06-m2': ['C04'], 'C17-m2': ['C04', 'C17'], 'C16-m1': ['C09', 'C16'], 'C14-m1': ['C14', 'C15'], 'C15-m1': ['C15', 'C14']}
 res = {}
 names = sorted(d for d in os.listdir(os.path.join(ROOT, 'seeded')) if os.path.isdir(os.path.join(ROOT, 'seeded', d)))
